@@ -127,6 +127,19 @@ void asan_arm();
 void asan_disarm();
 void watchdog(bool on);
 
+// The alignment of the stack is a source of nondeterminism as well (ASLR moves the stack base in 16-byte steps): an
+// alignment-requiring access to an under-aligned local faults in one process and not in the next. Every window therefore
+// starts from a stack pointer that is page aligned minus a plan-chosen skew (a multiple of 16), which makes such faults
+// repeatable and lets the plan explore the four 16-byte residues of a 64-byte line.
+extern volatile uint32_t g_stack_skew;
+template <class F> __attribute__((noinline)) void invoke_below(F &&f) { f(); __asm__ volatile("" ::: "memory"); }   // its frame (and everything inlined into it) lies BELOW the alloca
+template <class F> __attribute__((noinline)) void call_on_aligned_stack(F &&f) {
+    char probe; uintptr_t here = (uintptr_t)&probe;
+    size_t pad = (here & 4095) + 4096 + (g_stack_skew & 0x30);          // sp' = page boundary below `here`, minus one page, minus skew
+    volatile char *p = (volatile char *)__builtin_alloca(pad); p[0] = 0; p[pad - 1] = 0;
+    invoke_below(f);
+}
+
 template <class F>
 __attribute__((noinline)) Outcome window(F &&f, bool fail_alloc) {
     Outcome o;
@@ -136,7 +149,7 @@ __attribute__((noinline)) Outcome window(F &&f, bool fail_alloc) {
     if (sigsetjmp(g_win.env, 1) == 0) {
         g_win.open = 1;
         watchdog(true);          // a library loop that never terminates must not hang the check: SIGALRM ends the window
-        try { f(); g_win.open = 0; }
+        try { call_on_aligned_stack(f); g_win.open = 0; }
         catch (const std::bad_alloc &) { g_win.open = 0; o.kind = 3; }
         catch (const std::runtime_error &) { g_win.open = 0; o.kind = 2; }
         catch (...) { g_win.open = 0; o.kind = 4; }
